@@ -52,7 +52,7 @@ class _CacheBase(Contract):
     # ---------------------------------------------------------------------------------- scenario
     def callee(self, it, fv):
         if fv.qualname == "mimic_function":
-            return lambda it2, fv2, cargs, node: cargs.kw.get("within", V.VNone)
+            return lambda it2, fv2, cargs, node: cargs.arg(1, "within", V.VNone)
         return None
 
     def build(self, it):
@@ -135,6 +135,8 @@ class _CacheBase(Contract):
         st = it.st
         self.build(it)
         self.havoc_to_inv(it)
+        if self.is_async:
+            inside_some_scope(it)
         self.mark = attr_write_mark(it)
         self.p0 = dict_parts(it, self.cached)
         self.g0 = dict(st.ghost)
@@ -194,6 +196,10 @@ class _CacheBase(Contract):
         st.check("P1:the-task-runs-the-wrapped-function", z3.BoolVal(bool(ok)))
         if not ok:
             raise PathEnd("unexpected task")
+        # the shared invocation belongs to the cache, not to the scope of whoever happened to call first: as a member of that
+        # caller's task group it would be awaited / cancelled with that scope and its failure would abort the group
+        st.check("C13-P3:the-shared-invocation-is-a-plain-task-of-the-loop(not-a-member-of-the-first-callers-task-group)",
+                 z3.BoolVal(getattr(lv, "name", "") != "TaskGroup.create_task"))
         self.invoked += 1
         self.check_call_shape(it, aw.data["cargs"])
         st.check("P4:key-computed-before-the-function-is-invoked", z3.BoolVal(self.key is not None))
@@ -511,8 +517,9 @@ class CacheFactory(Contract):
         st.check("P6:async-functions-get-the-task-cache-sync-functions-the-value-cache",
                  z3.BoolVal(name == ("_AsyncCache" if self.is_async else "_SyncCache")))
         st.check("P6:function-limit-and-expiration-are-passed-unchanged",
-                 z3.And(z3.BoolVal(len(ca.pos) == 1) if len(ca.pos) != 1 else ca.pos[0] == self.fn,
-                        ca.kw.get("limit") == self.limit, ca.kw.get("expiration") == self.expiration))
+                 (lambda a: z3.BoolVal(False) if (a["function"] is None or a["limit"] is None or a["expiration"] is None or a["$extra"])
+                  else z3.And(a["function"] == self.fn, a["limit"] == self.limit, a["expiration"] == self.expiration))(
+                     named_args(ca, "function", "limit", "expiration")))
 
     def on_raise(self, it, exc):
         it.st.check("P6:building-the-cache-never-raises", z3.BoolVal(False))
@@ -536,7 +543,7 @@ class CacheGet(_CacheBase):
         if fv.qualname == "mimic_function":
             def spec(it2, fv2, cargs, node):
                 self.mimicked = cargs
-                return cargs.kw.get("within", V.VNone)
+                return cargs.arg(1, "within", V.VNone)
             return spec
         return None
 
